@@ -11,6 +11,7 @@ def make_module(with_raw_sense=True):
     m.ISCSI_SESSION_NORMAL = 2
     m.ISCSI_HEADER_DIGEST_NONE_CRC32C = 1
     m.log = []
+    m.disconnect_result = None
     m.calls = []  # (what, args) for Context/URL/connect/disconnect
     m.handler = None
     m.with_raw_sense = with_raw_sense
@@ -63,6 +64,7 @@ def make_module(with_raw_sense=True):
             m.calls.append(("disconnect",))
             self.disconnects += 1
             self.connected = False
+            return m.disconnect_result  # libiscsi: 0, or a negative number when the logout failed (the target dropped the connection)
 
         def command(self, lun, task, dataout, datain):
             ev = {
